@@ -128,6 +128,15 @@ Proof.
   eexists _, _, _. split; [vm_compute; reflexivity|]. split; [reflexivity|]. split; [vm_compute; discriminate | exact I].
 Qed.
 
+(* non-vacuity of (7): a reachable state, a fair continuation on which the item stays held, and the
+   request it leads to *)
+Example C16_response_nonvacuous :
+  reachT cfg_ex 0%Z 80%Z ex_resp_state /\
+  fair_run cfg_ex 0%Z ex_resp_state 80%Z ex_resp_trace /\
+  held_until_pass cfg_ex 7%N ex_resp_state ex_resp_trace /\
+  snd (run true cfg_ex ex_resp_state ex_resp_trace) = [(400%Z, (1%N, [7%N]))].
+Proof. exact ex_resp_hyps. Qed.
+
 Print Assumptions C16_safety.
 Print Assumptions C16_liveness_pass_pending_partial.
 Print Assumptions C16_liveness_tick_partial.
